@@ -232,7 +232,11 @@ def check_c17(tier, seed, res, work):
                 d = dict(kv.split('=', 1) for kv in w[1:])
                 m_sarif.append((unhx(d['file']).decode(), int(d['line']), unhx(d['rule']).decode('utf-8', 'replace'), unhx(d['level']).decode('utf-8', 'replace'), unhx(d['message']).decode('utf-8', 'replace')))
         queries = [('q%d' % i, unhx(m_entries[i]['query']).decode('utf-8', 'replace')) for i in range(len(order))]
-        alone, _ = qrun.run_queries(proj, queries, '%s/alone%d' % (work, trial))
+        # each rule's query evaluated ALONE: a fresh process per query, so nothing can leak between rules
+        alone = {}
+        for qi, (qid_, qt_) in enumerate(queries):
+            r_, _ = qrun.run_queries(proj, [(qid_, qt_)], '%s/alone%d_%d' % (work, trial, qi))
+            alone.update(r_)
         def alone_set(i):
             oc, payload = alone.get('q%d' % i, ('missing', ''))
             if oc != 'ok':
@@ -318,7 +322,9 @@ def check_c20(tier, seed, res, work):
         entries = []
         for i in range(n):
             content = ''.join(rng.choice(['FROM x AS y SELECT y', '"quote"', '\\back', '\n', '\r\n', '<tag>&amp;', 'café', ' ', '中文', '\t', ' ', '{', '}', '\x01', '/* c */', 'é' * 3]) for _ in range(rng.randint(0, 12)))
-            name = rng.choice(['a', 'B', 'rule-1', 'x.y', 'r r', 'ü']) + str(i) + '.cql'
+            name = rng.choice(['a', 'B', 'rule-1', 'x.y', 'r r', 'ü', '.hidden', '._mac', '#tmp', '~bak', '-dash']) + str(i) + '.cql'
+            if i == 0 and rng.random() < 0.15:
+                name = '.cql'
             entries.append((name, content.encode('utf-8')))
         decoys = [('readme.md', b'x'), ('rule.cql.bak', b'y'), ('cql', b'z')][:rng.randint(0, 3)]
         for nme, c in entries + decoys:
